@@ -17,7 +17,7 @@ const TYPE_KEYWORDS: &[&str] = &[
     "signed", "unsigned", "void", "type",
 ];
 const UNSUPPORTED_TYPES: &[&str] = &[
-    "real", "shortreal", "realtime", "string", "time", "chandle", "event", "wire", "tri", "wand", "wor", "tri0",
+    "real", "shortreal", "realtime", "string", "time", "chandle", "event", "tri", "wand", "wor", "tri0",
     "tri1", "supply0", "supply1", "uwire", "trireg",
 ];
 
@@ -407,6 +407,14 @@ impl Parser {
                     self.next();
                     TypeBase::Bits { two_state: false }
                 }
+                "wire" => {
+                    // single-driver nets behave like 4-state variables here (`wire logic` too)
+                    self.next();
+                    if self.is_kw("logic") {
+                        self.next();
+                    }
+                    TypeBase::Bits { two_state: false }
+                }
                 "bit" => {
                     self.next();
                     TypeBase::Bits { two_state: true }
@@ -667,6 +675,20 @@ impl Parser {
             | "global" | "restrict" | "checker" | "constraint" | "virtual" | "extern" | "static" | "automatic"
             | "const" => Err(SvError::Unsupported(format!("module item '{k}'"))),
             k if UNSUPPORTED_TYPES.contains(&k) => Err(SvError::Unsupported(format!("declaration of kind '{k}'"))),
+            "wire" => {
+                // net declaration; `wire w = e;` is a declaration plus a continuous assignment
+                let ds = self.parse_var_decl()?;
+                let mut out = vec![];
+                for mut d in ds {
+                    let init = d.init.take();
+                    let name = d.name.clone();
+                    out.push(Item::Var(d));
+                    if let Some(rhs) = init {
+                        out.push(Item::Assign { lhs: Expr::Ident { pkg: None, name }, rhs });
+                    }
+                }
+                Ok(out)
+            }
             _ if self.starts_type_keyword() => {
                 let ds = self.parse_var_decl()?;
                 Ok(ds.into_iter().map(Item::Var).collect())
@@ -751,9 +773,16 @@ impl Parser {
         self.expect_op("(")?;
         let mut conns = vec![];
         while !self.is_op(")") {
-            if !self.eat_op(".") {
-                return Err(SvError::Unsupported("positional port connection".into()));
+            if !self.is_op(".") {
+                // positional connection: resolved against the module's port order at elaboration
+                let v = if self.is_op(",") { None } else { Some(self.parse_expr()?) };
+                conns.push((format!("\u{1}pos{}", conns.len()), v));
+                if !self.eat_op(",") {
+                    break;
+                }
+                continue;
             }
+            self.next();
             if self.eat_op("*") {
                 return Err(SvError::Unsupported("wildcard port connection".into()));
             }
